@@ -7,6 +7,7 @@ ASSUME = [
     'objects whose value the model does not predict (after an effective truncation; factors of a decomposition) are '
     'still required to have consistent metadata and must not be changed by later calls on other objects '
     '(their observed value is frozen and compared)',
+    'routine level: every solver / integrator / data-driven routine is called on live trains (float data, opaque values), recorded as a Routine event and followed by in-place calls on the returned objects and the arguments; the traces are validated by TLC (spec/Trace_TTPool.tla: no non-target object may change its value id, every returned TT is consistent)',
     'trusted base: TLC evaluation of spec/TTPool.tla, harness/pool.py projection',
 ]
 RULE = ('TLC enumerates all histories  create operands -> producer call(s) -> in-place call(s) on ANY live object  '
@@ -51,7 +52,7 @@ def runs(tier):
 
 
 def main(tier):
-    return poolcheck.run('C06', tier, runs(tier), ASSUME, RULE, traces=(800, 6) if tier == 'quick' else (8000, 8))
+    return poolcheck.run('C06', tier, runs(tier), ASSUME, RULE, traces=(800, 6, 6) if tier == 'quick' else (8000, 8, 60))
 
 
 def selftest():
